@@ -11,7 +11,7 @@ git diff -- src/ > /tmp/confirm_$name.diff
 if ! diff -q /tmp/confirm_$name.diff MUTANT/patch.diff >/dev/null; then echo "NOTE: worktree diff differs from MUTANT/patch.diff; using MUTANT/patch.diff" | tee -a $log; git checkout -- src/ && git apply MUTANT/patch.diff || exit 2; fi
 lib=$(cargo test --offline --lib 2>&1 | grep -E "^test result" | head -1); echo "lib tests with change: $lib" | tee -a $log
 doc=$(cargo test --offline --doc 2>&1 | grep -E "^test result" | head -1); echo "doc tests with change: $doc" | tee -a $log
-with=$(cargo test --offline --features assert-reader-validity --test $demo 2>&1 | grep -E "^test result|panicked at" | head -3 | tr '\n' ' '); echo "demo WITH change: $with" | tee -a $log
+withall=$(cargo test --offline --features assert-reader-validity --test $demo 2>&1); with="$(echo "$withall" | grep -E "panicked at" | head -2 | tr '\n' ' ') $(echo "$withall" | grep -E "^test result" | head -1)"; echo "demo WITH change: $with" | tee -a $log
 git apply -R MUTANT/patch.diff || { echo "cannot revert"; exit 2; }
 without=$(cargo test --offline --features assert-reader-validity --test $demo 2>&1 | grep -E "^test result" | head -1); echo "demo WITHOUT change: $without" | tee -a $log
 git apply MUTANT/patch.diff
